@@ -156,7 +156,8 @@ def http_response(rng, body=None, ctype=None, location=None):
             size = rng.choice(['%x' % n] * 6 + ['%X;ext=1' % n, '0%x' % n, ' %x' % n, '-%x' % n, 'zz', '', '%x' % (n + 3), 'f' * 20, '0x%x' % n])
             chunks.append(size.encode() + b'\r\n' + data[:n] + rng.choice([b'\r\n'] * 6 + [b'\n', b'', b'xx']))
             data = data[n:]
-        trailer = rng.choice([b'', b'', b'X-T: 1\r\n', b'garbage\r\n', b'\xff\r\n', b'a' * 40000 + b'\r\n'])
+        trailer = rng.choice([b'', b'', b'X-T: 1\r\n', b'garbage\r\n', b'\xff\r\n', b'a' * 40000 + b'\r\n', b' X-T: 1\r\n',
+                              b'\tfolded-first\r\n', b'a' * 70000 + b'\r\n', b'X-A: 1\r\n b\r\n'])
         wire_body = b''.join(chunks) + rng.choice([b'0\r\n', b'0\r\n', b'0;x\r\n', b'', b'00000\r\n']) + trailer + rng.choice([b'\r\n', b'\r\n', b''])
     if framing in ('close', 'none'):
         close = True
@@ -170,6 +171,8 @@ def http_response(rng, body=None, ctype=None, location=None):
     version = rng.choice(['HTTP/1.1'] * 6 + ['HTTP/1.0', 'HTTP/2', 'HTTP', 'ICY', '', 'HTTP/1.1 '])
     line = '%s %s %s' % (version, status, reason) if rng.random() < 0.9 else rng.choice(['', 'garbage', 'HTTP/1.1', 'HTTP/1.1 abc OK', 'HTTP/1.1 -1 OK', '\x00\x01'])
     head = line + nl
+    if rng.random() < 0.06:
+        head += rng.choice([' ', '\t', '  '])        # the first field line is a "continuation" of nothing
     for k, v in hdrs:
         head += (k + nl) if v is None else ('%s: %s%s' % (k, v, nl))
     head += nl
@@ -195,19 +198,19 @@ def http_response(rng, body=None, ctype=None, location=None):
 # ------------------------------------------------------------------ FTP
 def ftp_reply(rng, code, text='ok'):
     r = rng.random()
-    if r < 0.6:
+    if r < 0.80:
         return b'%d %s\r\n' % (code, text.encode())
-    if r < 0.7:
+    if r < 0.86:
         return b'%d-%s\r\n more\r\n%d end\r\n' % (code, text.encode(), code)
-    if r < 0.8:
+    if r < 0.91:
         return mutate(rng, b'%d %s\r\n' % (code, text.encode()))
-    if r < 0.85:
-        return b'%d a\r%d b\n' % (code, code)
-    if r < 0.9:
-        return rbytes(rng, rng.randint(0, 40)) + b'\n'
     if r < 0.93:
+        return b'%d a\r%d b\n' % (code, code)
+    if r < 0.95:
+        return rbytes(rng, rng.randint(0, 40)) + b'\n'
+    if r < 0.97:
         return b'%d ' % code + b'a' * 70000 + b'\r\n'
-    if r < 0.96:
+    if r < 0.985:
         return b''
     return b'%d %s' % (code, text.encode())
 
@@ -217,8 +220,23 @@ def ftp_pasv(rng):
                                                                        '(10,0,0,1,７,228)', '(10,0,0,1,999,999)', '(0,0,0,0,0,0)'])
 
 
+MSDOS_LINES = ['01-01-20  12:00AM       <DIR>          win', '01-01-20  12:00PM  123 f.txt', '01-01-20', '01-01-20  12:00AM',
+               '01-01-20  12:00AM  <DIR>', '12', '13-45-99  99:99XM  x y', '02-30-20  12:00AM  1 feb30', '12-12-2020  1:1AM <DIR>',
+               '01-01-20  12:00AM  x name', '10-10-10 10:10PM 5 a b c', '01-01-20  12:00AM  99999999999999999999 big']
+UNIX_LINES = ['-rw-r--r-- 1 u g 3 Jan 01 2020 a.txt', 'drwxr-xr-x 2 u g 4096 Jan 01 00:00 d', 'lrwxrwxrwx 1 u g 1 Jan 1 2020 l -> t',
+              '-rw-r--r-- 1 u g', 'total 5', '-rw-r--r-- 1 u g x Feb 30 2020 bad', '-rw-r--r-- 1 u g 3 Jan 01 99999 y', '-', 'd',
+              '-rw-r--r-- 1 u g 3 Foo 01 2020 m', '-rw-r--r--', '-rw-r--r-- 1 u g 3 Jan', 'drwxr-xr-x 2 u g 4096 Jan 01 00:00']
+
+
 def ftp_listing(rng, mlsd):
     lines = []
+    style = rng.choice(['mixed', 'msdos', 'unix', 'msdos', 'unix'])
+    if not mlsd and style != 'mixed':
+        # a listing in ONE style (that is what makes the parser choose that style), short lines included
+        pool = MSDOS_LINES if style == 'msdos' else UNIX_LINES
+        lines = [rng.choice(pool) for _ in range(rng.randint(1, 4))]
+        data = ('\r\n'.join(lines) + '\r\n').encode('utf-8', 'surrogateescape')
+        return mutate(rng, data) if rng.random() < 0.15 else data
     for _ in range(rng.randint(0, 5)):
         if mlsd:
             lines.append(rng.choice(['type=file;size=3;modify=20200101000000; a.txt', 'type=dir; d', 'Type=cdir;Modify=garbage; .', 'size=x; f',
